@@ -86,7 +86,7 @@ func init() {
 	run.Props["C14"] = &run.PropSpec{ID: "C14", Level: "exploration",
 		Rule:     "one evaluation = one successful vest / claim / cancel / vest-now transaction of an observed account checked against the monitor's own linear-schedule reference (entries and balances snapshotted by the pre-message probe, compared in the post-tx probe), or one conservation equation; distinct = (op, account, entries before -> after) never seen before",
 		Monitors: func() []mon.Monitor { return []mon.Monitor{mon.NewC14()} },
-		Plan:     plan([]run.PlanItem{pi("commit-life", 20), pi("vest-edge", 8)}, []run.PlanItem{pi("commit-life", 48), pi("vest-edge", 12), pi("replicas", 4)}),
+		Plan:     plan([]run.PlanItem{pi("commit-life", 20), pi("vest-edge", 8), pi("pure-vesting", 2)}, []run.PlanItem{pi("commit-life", 48), pi("vest-edge", 12), pi("replicas", 4), pi("pure-vesting", 4)}),
 		Assume:   []string{boundsAssume, "single-message transactions for the observed accounts (the harness only sends those)"}}
 	run.Props["C16"] = &run.PropSpec{ID: "C16", Level: "exploration",
 		Rule:     "one evaluation = one GetAssetPrice / GetAssetPriceFromDenom lookup (after every commit and at the pre-message probe of every non-oracle message) compared with the reference map, one feed message judged against the reference feeder set, or one full store-vs-reference comparison; distinct = (asked name, returned entry) changed and new",
